@@ -258,6 +258,30 @@ static const char *opk_name[NOPK] = {"hash", "hasha", "xof", "aead128", "aead128
                                      "isap128a_shared", "isap80pq_shared", "masked128_shared", "masked80pq_shared", "prf_hmac", "kmac_hkdf", "random", "prng",
                                      "cpp_aead", "cpp_isap_saved_key", "cpp_hash_xof", "cpp_siv_masked"};
 
+// the ISAP classes take (key, len), the others take (key)
+template <class E> static auto make_keyed(const uint8_t *k, size_t klen) -> decltype(E(k, klen)) { return E(k, klen); }
+template <class E, class... X> static E make_keyed(const uint8_t *k, X...) { return E(k); }
+
+// one C++ cipher class: key constructor + encrypt on one object, default constructor + set_key + set_counter +
+// set_nonce + decrypt (+ clear) on another; raw-pointer overloads only (no allocation inside the library)
+template <class E>
+static void cpp_pair(ThreadCtx &T, const uint8_t *k, size_t klen, const uint8_t *n, const uint8_t *m, size_t mlen, const uint8_t *a, size_t adlen,
+                     bool tamper, uint64_t sd, size_t &clen, size_t &plen, int &r)
+{
+    E e = make_keyed<E>(k, klen);
+    e.set_nonce(n, 16);
+    r = e.encrypt(T.out, m, mlen, a, adlen);
+    clen = r < 0 ? 0 : (size_t)r;
+    if (tamper && clen) T.out[(sd >> 8) % clen] ^= (uint8_t)(1u << (sd & 7));
+    E d;
+    d.set_key(k, klen);
+    d.set_counter(7);
+    d.set_nonce(n, 16);
+    r = d.decrypt(T.tmp, T.out, clen, a, adlen);
+    plen = r < 0 ? 0 : (size_t)r;
+    e.clear();
+}
+
 static uint64_t run_op(ThreadCtx &T, const Op &op)
 {
     int kind = (int)(op.u(0) % NOPK);
@@ -266,6 +290,7 @@ static uint64_t run_op(ThreadCtx &T, const Op &op)
     Shared &S = *T.sh;
     bool use_shared_const = op.u(4) & 1;
     bool tamper = (op.u(4) & 6) == 2;
+    unsigned v = (unsigned)(sd >> 11); // variant selector
     // private inputs
     alignas(64) static __thread uint8_t msg[256], ad[64];
     fill_bytes(msg, mlen, sd ^ 1);
@@ -278,50 +303,103 @@ static uint64_t run_op(ThreadCtx &T, const Op &op)
     int r = 0;
     memset(T.out, 0, sizeof T.out);
     switch (kind) {
-    case 0: LIB(ascon_hash(T.out, m, mlen)); clen = 32; break;
-    case 1: LIB(ascon_hasha(T.out, m, mlen)); clen = 32; break;
-    case 2: { ascon_xof_state_t x; LIB(ascon_xof_init(&x); ascon_xof_absorb(&x, m, mlen); ascon_xof_squeeze(&x, T.out, 40); ascon_xof_free(&x)); clen = 40; break; }
+    // every variant of every family is called somewhere (`v` selects it), so that a static scratch buffer or a
+    // lazily initialised table in any of them is at least written once under the detector
+    case 0: if (v & 1) LIB(ascon_hash(T.out, m, mlen));
+            else { ascon_hash_state_t h, h2; LIB(ascon_hash_init(&h); ascon_hash_update(&h, m, mlen / 2); ascon_hash_copy(&h2, &h); ascon_hash_update(&h2, m + mlen / 2, mlen - mlen / 2); ascon_hash_finalize(&h2, T.out); ascon_hash_reinit(&h); ascon_hash_free(&h); ascon_hash_free(&h2)); }
+            clen = 32; break;
+    case 1: if (v & 1) LIB(ascon_hasha(T.out, m, mlen));
+            else { ascon_hasha_state_t h, h2; LIB(ascon_hasha_init(&h); ascon_hasha_update(&h, m, mlen / 2); ascon_hasha_copy(&h2, &h); ascon_hasha_update(&h2, m + mlen / 2, mlen - mlen / 2); ascon_hasha_finalize(&h2, T.out); ascon_hasha_reinit(&h); ascon_hasha_free(&h); ascon_hasha_free(&h2)); }
+            clen = 32; break;
+    case 2: {
+        if (v & 1) { ascon_xof_state_t x; LIB(if (v & 2) ascon_xof_init_fixed(&x, 40); else if (v & 4) ascon_xof_init_custom(&x, "thr", a, adlen % 9, 40); else ascon_xof_init(&x);
+                                          ascon_xof_absorb(&x, m, mlen); ascon_xof_squeeze(&x, T.out, 40); ascon_xof_pad(&x); ascon_xof_free(&x); ascon_xof(T.out + 40, m, mlen)); }
+        else { ascon_xofa_state_t x; LIB(if (v & 2) ascon_xofa_init_fixed(&x, 40); else if (v & 4) ascon_xofa_init_custom(&x, "thr", a, adlen % 9, 40); else ascon_xofa_init(&x);
+                                         ascon_xofa_absorb(&x, m, mlen); ascon_xofa_squeeze(&x, T.out, 40); ascon_xofa_pad(&x); ascon_xofa_free(&x); ascon_xofa(T.out + 40, m, mlen)); }
+        clen = 72; break; }
     case 3: LIB(ascon128_aead_encrypt(T.out, &clen, m, mlen, a, adlen, n, k)); TAMPER(); LIB(r = ascon128_aead_decrypt(T.tmp, &plen, T.out, clen, a, adlen, n, k)); break;
     case 4: LIB(ascon128a_aead_encrypt(T.out, &clen, m, mlen, a, adlen, n, k)); TAMPER(); LIB(r = ascon128a_aead_decrypt(T.tmp, &plen, T.out, clen, a, adlen, n, k)); break;
     case 5: LIB(ascon80pq_aead_encrypt(T.out, &clen, m, mlen, a, adlen, n, k)); TAMPER(); LIB(r = ascon80pq_aead_decrypt(T.tmp, &plen, T.out, clen, a, adlen, n, k)); break;
-    case 6: { ascon128_state_t st; LIB(ascon128_aead_init(&st, n, k); ascon128_aead_start(&st, a, adlen); ascon128_aead_encrypt_block(&st, m, T.out, mlen / 2); ascon128_aead_encrypt_block(&st, m + mlen / 2, T.out + mlen / 2, mlen - mlen / 2); ascon128_aead_encrypt_finalize(&st, T.out + mlen); ascon128_aead_free(&st)); clen = mlen + 16; break; }
-    case 7: LIB(ascon128_siv_encrypt(T.out, &clen, m, mlen, a, adlen, n, k)); TAMPER(); LIB(r = ascon128_siv_decrypt(T.tmp, &plen, T.out, clen, a, adlen, n, k)); break;
+    case 6: {
+        size_t h1 = mlen / 2, h2 = mlen - mlen / 2;
+        if (v % 3 == 0) { ascon128_state_t st; LIB(ascon128_aead_init(&st, n, k); ascon128_aead_start(&st, a, adlen); ascon128_aead_encrypt_block(&st, m, T.out, h1); ascon128_aead_encrypt_block(&st, m + h1, T.out + h1, h2); ascon128_aead_encrypt_finalize(&st, T.out + mlen);
+                                               ascon128_aead_reinit(&st, n, k); ascon128_aead_start(&st, a, adlen); ascon128_aead_decrypt_block(&st, T.out, T.tmp, mlen); r = ascon128_aead_decrypt_finalize(&st, T.out + mlen); ascon128_aead_free(&st)); }
+        else if (v % 3 == 1) { ascon128a_state_t st; LIB(ascon128a_aead_init(&st, n, k); ascon128a_aead_start(&st, a, adlen); ascon128a_aead_encrypt_block(&st, m, T.out, h1); ascon128a_aead_encrypt_block(&st, m + h1, T.out + h1, h2); ascon128a_aead_encrypt_finalize(&st, T.out + mlen);
+                                               ascon128a_aead_reinit(&st, n, k); ascon128a_aead_start(&st, a, adlen); ascon128a_aead_decrypt_block(&st, T.out, T.tmp, mlen); r = ascon128a_aead_decrypt_finalize(&st, T.out + mlen); ascon128a_aead_free(&st)); }
+        else { ascon80pq_state_t st; LIB(ascon80pq_aead_init(&st, n, k); ascon80pq_aead_start(&st, a, adlen); ascon80pq_aead_encrypt_block(&st, m, T.out, h1); ascon80pq_aead_encrypt_block(&st, m + h1, T.out + h1, h2); ascon80pq_aead_encrypt_finalize(&st, T.out + mlen);
+                                               ascon80pq_aead_reinit(&st, n, k); ascon80pq_aead_start(&st, a, adlen); ascon80pq_aead_decrypt_block(&st, T.out, T.tmp, mlen); r = ascon80pq_aead_decrypt_finalize(&st, T.out + mlen); ascon80pq_aead_free(&st)); }
+        clen = mlen + 16; plen = mlen; break; }
+    case 7: if (v & 1) { LIB(ascon128_siv_encrypt(T.out, &clen, m, mlen, a, adlen, n, k)); TAMPER(); LIB(r = ascon128_siv_decrypt(T.tmp, &plen, T.out, clen, a, adlen, n, k)); }
+            else { LIB(ascon128a_siv_encrypt(T.out, &clen, m, mlen, a, adlen, n, k)); TAMPER(); LIB(r = ascon128a_siv_decrypt(T.tmp, &plen, T.out, clen, a, adlen, n, k)); }
+            break;
     case 8: LIB(ascon80pq_siv_encrypt(T.out, &clen, m, mlen, a, adlen, n, k)); TAMPER(); LIB(r = ascon80pq_siv_decrypt(T.tmp, &plen, T.out, clen, a, adlen, n, k)); break;
     case 9: LIB(ascon128_isap_aead_encrypt(T.out, &clen, m, mlen, a, adlen, n, &S.ik128)); TAMPER(); LIB(r = ascon128_isap_aead_decrypt(T.tmp, &plen, T.out, clen, a, adlen, n, &S.ik128)); break;
     case 10: LIB(ascon128a_isap_aead_encrypt(T.out, &clen, m, mlen, a, adlen, n, &S.ik128a)); TAMPER(); LIB(r = ascon128a_isap_aead_decrypt(T.tmp, &plen, T.out, clen, a, adlen, n, &S.ik128a)); break;
     case 11: LIB(ascon80pq_isap_aead_encrypt(T.out, &clen, m, mlen, a, adlen, n, &S.ik80)); TAMPER(); LIB(r = ascon80pq_isap_aead_decrypt(T.tmp, &plen, T.out, clen, a, adlen, n, &S.ik80)); break;
-    case 12: LIB(ascon128_masked_aead_encrypt(T.out, &clen, m, mlen, a, adlen, n, &S.mk128)); TAMPER(); LIB(r = ascon128_masked_aead_decrypt(T.tmp, &plen, T.out, clen, a, adlen, n, &S.mk128)); break;
+    case 12: if (v & 1) { LIB(ascon128_masked_aead_encrypt(T.out, &clen, m, mlen, a, adlen, n, &S.mk128)); TAMPER(); LIB(r = ascon128_masked_aead_decrypt(T.tmp, &plen, T.out, clen, a, adlen, n, &S.mk128)); }
+             else { LIB(ascon128a_masked_aead_encrypt(T.out, &clen, m, mlen, a, adlen, n, &S.mk128)); TAMPER(); LIB(r = ascon128a_masked_aead_decrypt(T.tmp, &plen, T.out, clen, a, adlen, n, &S.mk128)); }
+             break;
     case 13: LIB(ascon80pq_masked_aead_encrypt(T.out, &clen, m, mlen, a, adlen, n, &S.mk160)); TAMPER(); LIB(r = ascon80pq_masked_aead_decrypt(T.tmp, &plen, T.out, clen, a, adlen, n, &S.mk160)); break;
-    case 14: LIB(ascon_prf(T.out, 24, m, mlen, k); ascon_hmac(T.out + 24, k, 20, m, mlen); r = ascon_mac_verify(T.out, m, mlen, k)); clen = 56; break;
-    case 15: LIB(ascon_kmac(k, 16, m, mlen, a, adlen, T.out, (mlen & 1) ? 32 : 24); r = ascon_hkdf(T.out + 32, 40, k, 20, a, adlen, m, mlen % 20); ascon_kdf(T.out + 72, 16, k, 16, a, adlen % 9);
-                 ascon_pbkdf2(T.out + 88, 24, m, mlen % 13, a, adlen % 11, 2); ascon_pbkdf2_hmac(T.out + 112, 8, m, mlen % 13, a, adlen % 11, 1)); clen = 120; break;
+    case 14: {
+        ascon_prf_state_t ps;
+        LIB(ascon_prf(T.out, 24, m, mlen, k); ascon_prf_fixed(T.out + 24, 8, m, mlen, k); r = ascon_prf_short(T.out + 32, 16, m, mlen % 17, k); ascon_mac(T.out + 48, m, mlen, k); r += ascon_mac_verify(T.out + 48, m, mlen, k);
+            ascon_prf_init(&ps, k); ascon_prf_absorb(&ps, m, mlen); ascon_prf_squeeze(&ps, T.out + 64, 20); ascon_prf_free(&ps));
+        if (v & 1) { ascon_hmac_state_t hs; LIB(ascon_hmac(T.out + 96, k, 20, m, mlen); ascon_hmac_init(&hs, k, 20 + (v & 64)); ascon_hmac_update(&hs, m, mlen); ascon_hmac_finalize(&hs, k, 20 + (v & 64), T.out + 128); ascon_hmac_free(&hs)); }
+        else { ascon_hmaca_state_t hs; LIB(ascon_hmaca(T.out + 96, k, 20, m, mlen); ascon_hmaca_init(&hs, k, 20); ascon_hmaca_update(&hs, m, mlen); ascon_hmaca_finalize(&hs, k, 20, T.out + 128); ascon_hmaca_free(&hs)); }
+        clen = 160; break; }
+    case 15: {
+        size_t ol = (mlen & 1) ? 32 : 24;
+        if (v & 1) { ascon_hkdf_state_t hk; LIB(ascon_kmac(k, 16, m, mlen, a, adlen, T.out, ol); r = ascon_hkdf(T.out + 32, 40, k, 20, a, adlen, m, mlen % 20); ascon_kdf(T.out + 72, 16, k, 16, a, adlen % 9);
+                                               ascon_hkdf_extract(&hk, k, 20, a, adlen); r += ascon_hkdf_expand(&hk, m, mlen % 9, T.out + 128, 40); ascon_hkdf_free(&hk)); }
+        else { ascon_hkdfa_state_t hk; LIB(ascon_kmaca(k, 16, m, mlen, a, adlen, T.out, ol); r = ascon_hkdfa(T.out + 32, 40, k, 20, a, adlen, m, mlen % 20); ascon_kdfa(T.out + 72, 16, k, 16, a, adlen % 9);
+                                           ascon_hkdfa_extract(&hk, k, 20, a, adlen); r += ascon_hkdfa_expand(&hk, m, mlen % 9, T.out + 128, 40); ascon_hkdfa_free(&hk)); }
+        LIB(ascon_pbkdf2(T.out + 88, 24, m, mlen % 13, a, adlen % 11, 2); ascon_pbkdf2_hmac(T.out + 112, 8, m, mlen % 13, a, adlen % 11, 1));
+        clen = 168; break; }
     case 16: LIB(r = ascon_random(T.out, 32 + mlen % 32)); clen = 32 + mlen % 32; break;
     case 17: LIB(ascon_random_init(&T.prng); ascon_random_feed(&T.prng, m, mlen % 24); ascon_random_fetch(&T.prng, T.out, 48); ascon_random_free(&T.prng)); clen = 48; break;
     // C++ wrappers (built with clang++ and the same callbacks); raw-pointer overloads only, so that the
     // library never allocates and address reuse through malloc cannot fake a race
-    case 18: {
+    case 18: { // plain and SIV classes, all three parameter sets
         ++t_in_lib;
-        { ascon::aead128 e(k); e.set_nonce(n, 16); r = e.encrypt(T.out, m, mlen, a, adlen); clen = (size_t)r;
-          ascon::aead128 d; d.set_key(k, 16); d.set_counter(7); d.set_nonce(n, 16); r = d.decrypt(T.tmp, T.out, clen, a, adlen); plen = r < 0 ? 0 : (size_t)r; }
+        switch (v % 6) {
+        case 0: cpp_pair<ascon::aead128>(T, k, 16, n, m, mlen, a, adlen, tamper, sd, clen, plen, r); break;
+        case 1: cpp_pair<ascon::aead128a>(T, k, 16, n, m, mlen, a, adlen, tamper, sd, clen, plen, r); break;
+        case 2: cpp_pair<ascon::aead80pq>(T, k, 20, n, m, mlen, a, adlen, tamper, sd, clen, plen, r); break;
+        case 3: cpp_pair<ascon::siv128>(T, k, 16, n, m, mlen, a, adlen, tamper, sd, clen, plen, r); break;
+        case 4: cpp_pair<ascon::siv128a>(T, k, 16, n, m, mlen, a, adlen, tamper, sd, clen, plen, r); break;
+        default: cpp_pair<ascon::siv80pq>(T, k, 20, n, m, mlen, a, adlen, tamper, sd, clen, plen, r); break;
+        }
         --t_in_lib;
         break; }
-    case 19: {
+    case 19: { // ISAP classes keyed from the shared saved key (128a) or raw keys
         ++t_in_lib;
-        { ascon::isap128a e(S.saved128a, ASCON_ISAP_SAVED_KEY_SIZE); e.set_nonce(n, 16); r = e.encrypt(T.out, m, mlen, a, adlen); clen = (size_t)r;
-          ascon::isap128a d; d.set_key(S.saved128a, ASCON_ISAP_SAVED_KEY_SIZE); d.set_nonce(n, 16); r = d.decrypt(T.tmp, T.out, clen, a, adlen); plen = r < 0 ? 0 : (size_t)r; }
+        switch (v % 3) {
+        case 0: { ascon::isap128a e(S.saved128a, ASCON_ISAP_SAVED_KEY_SIZE); e.set_nonce(n, 16); r = e.encrypt(T.out, m, mlen, a, adlen); clen = (size_t)r;
+                  if (tamper && clen) T.out[(sd >> 8) % clen] ^= 1;
+                  ascon::isap128a d; d.set_key(S.saved128a, ASCON_ISAP_SAVED_KEY_SIZE); d.set_nonce(n, 16); r = d.decrypt(T.tmp, T.out, clen, a, adlen); plen = r < 0 ? 0 : (size_t)r;
+                  d.save_key(T.tmp + 512); break; }
+        case 1: cpp_pair<ascon::isap128>(T, k, 16, n, m, mlen, a, adlen, tamper, sd, clen, plen, r); break;
+        default: cpp_pair<ascon::isap80pq>(T, k, 20, n, m, mlen, a, adlen, tamper, sd, clen, plen, r); break;
+        }
         --t_in_lib;
         break; }
     case 20: {
         ++t_in_lib;
         { ascon::hash h; h.update(m, mlen); h.finalize(T.out); ascon::xofa x; x.absorb(a, adlen); x.absorb(m, mlen); x.squeeze(T.out + 32, 24);
-          ascon::hasha h2; h2.update(m, mlen / 2); ascon::hasha h3(h2); h3.update(m + mlen / 2, mlen - mlen / 2); h3.finalize(T.out + 56); }
+          ascon::hasha h2; h2.update(m, mlen / 2); ascon::hasha h3(h2); h3.update(m + mlen / 2, mlen - mlen / 2); h3.finalize(T.out + 56);
+          ascon::xof y("thr", a, adlen % 7); y.absorb(m, mlen); y.pad(); y.squeeze(T.out + 88, 16); y.reset();
+          ascon::xof_with_output_length<32> z; z.absorb(m, mlen); z.squeeze(T.out + 104, 32); ascon::xofa_with_output_length<17> w; w = w; w.absorb(m, mlen); w.squeeze(T.out + 136, 17);
+          ascon::hash::digest(T.out + 160, m, mlen); ascon::hasha::digest(T.out + 192, m, mlen); }
         --t_in_lib;
-        clen = 88;
+        clen = 224;
         break; }
-    default: {
+    default: { // masked classes
         ++t_in_lib;
-        { ascon::siv80pq e(k); e.set_nonce(n, 16); r = e.encrypt(T.out, m, mlen, a, adlen); clen = (size_t)r;
-          ascon::aead128a_masked d(k); d.set_nonce(n, 16); r = d.encrypt(T.tmp, m, mlen, a, adlen); plen = (size_t)r; }
+        switch (v % 3) {
+        case 0: cpp_pair<ascon::aead128_masked>(T, k, 16, n, m, mlen, a, adlen, tamper, sd, clen, plen, r); break;
+        case 1: cpp_pair<ascon::aead128a_masked>(T, k, 16, n, m, mlen, a, adlen, tamper, sd, clen, plen, r); break;
+        default: cpp_pair<ascon::aead80pq_masked>(T, k, 20, n, m, mlen, a, adlen, tamper, sd, clen, plen, r); break;
+        }
         --t_in_lib;
         break; }
     }
